@@ -44,7 +44,7 @@ def _(self: Ref['mqtt.client.pubsubs.MQTTProtocol'], request: Ref['mqtt.pdu.SUBS
     ensures(wf_interval(request.interval))
     # I.enc is kept: only the DUP flag of the stored bytes may change (same_packet is opaque elsewhere)
     ensures(implies(old(is_bytes(request.g_base) and (enc_ok(request) or request.encoded == request.g_base)), enc_ok(request)))
-    ensures(no_other_timer(as_ref(request.alarm)))
+    ensures(no_other_timer(request.alarm))
 
 
 @contract('mqtt.client.pubsubs.MQTTProtocol._retryUnsubscribe', props=['C08', 'C07', 'C02', 'C18', 'C13'])
@@ -61,7 +61,7 @@ def _(self: Ref['mqtt.client.pubsubs.MQTTProtocol'], request: Ref['mqtt.pdu.UNSU
     ensures(wf_interval(request.interval))
     # I.enc is kept: only the DUP flag of the stored bytes may change (same_packet is opaque elsewhere)
     ensures(implies(old(is_bytes(request.g_base) and (enc_ok(request) or request.encoded == request.g_base)), enc_ok(request)))
-    ensures(no_other_timer(as_ref(request.alarm)))
+    ensures(no_other_timer(request.alarm))
 
 
 # ---------------------------------------------------------------- PUBLISH / PUBREL
@@ -85,7 +85,7 @@ def _(self: Ref['mqtt.client.pubsubs.MQTTProtocol'], request: Ref['mqtt.pdu.PUBL
     ensures(implies(is_none(request.interval), unchanged(request.alarm)))
     # I.enc is kept: only the DUP flag of the stored bytes may change (same_packet is opaque elsewhere)
     ensures(implies(old(is_bytes(request.g_base) and (enc_ok(request) or request.encoded == request.g_base)), enc_ok(request)))
-    ensures(no_other_timer(as_ref(request.alarm)))
+    ensures(no_other_timer(request.alarm))
 
 
 @contract('mqtt.client.pubsubs.MQTTProtocol._retryRelease', props=['C08', 'C09', 'C02', 'C18', 'C13', 'C12'])
@@ -105,4 +105,4 @@ def _(self: Ref['mqtt.client.pubsubs.MQTTProtocol'], reply: Ref['mqtt.pdu.PUBREL
 
     # I.enc is kept: only the DUP flag of the stored bytes may change (same_packet is opaque elsewhere)
     ensures(implies(old(is_bytes(reply.g_base) and (enc_ok(reply) or reply.encoded == reply.g_base)), enc_ok(reply)))
-    ensures(no_other_timer(as_ref(reply.alarm)))
+    ensures(no_other_timer(reply.alarm))
